@@ -116,39 +116,65 @@ theorem natDigits_head (n : Nat) : ∃ c t, natDigits n = c :: t ∧ isDigitC c 
   | [] => exact absurd h hne
   | c :: t => exact ⟨c, t, rfl, natDigits_all_digit n c (by simp [h])⟩
 
-theorem matchSeg_idx (W : Char → Bool) (i : Int) (rest : Text) :
-    matchSeg W (seg W (.idx i) ++ rest) = some (.idx i, rest) := by
+theorem skipHash_false (t : Text) : skipHash false t = t := rfl
+
+theorem skipHash_ne (hash : Bool) (c : Char) (t : Text) (hc : c ≠ '#') : skipHash hash (c :: t) = c :: t := by
+  unfold skipHash
+  cases hash
+  · rfl
+  · simp only [if_true]
+    split
+    · rename_i r h; simp at h; exact absurd h.1 hc
+    · rfl
+
+theorem matchSeg_nohash (W : Char → Bool) (hash : Bool) (c : Char) (t : Text) (hc : c ≠ '#') :
+    matchSeg W hash ('[' :: c :: t) = matchSeg W false ('[' :: c :: t) := by
+  simp only [matchSeg, skipHash_ne hash c t hc, skipHash_ne false c t hc]
+
+theorem dropMinus_ne (c : Char) (t : Text) (hc : c ≠ '-') : dropMinus (c :: t) = c :: t ∧ isNegText (c :: t) = false := by
+  constructor
+  · unfold dropMinus; split
+    · rename_i r h; simp at h; exact absurd h.1 hc
+    · rfl
+  · unfold isNegText; split
+    · rename_i r h; simp at h; exact absurd h.1 hc
+    · rfl
+
+theorem matchSeg_idx0 (W : Char → Bool) (i : Int) (rest : Text) :
+    matchSeg W false (seg W (.idx i) ++ rest) = some (.idx i, rest) := by
+  have hrun := takeWhile_run isDigitC _ ']' rest (natDigits_all_digit i.natAbs) isDigitC_rbracket
+  have hdrop := dropWhile_run isDigitC _ ']' rest (natDigits_all_digit i.natAbs) isDigitC_rbracket
+  have hne := natDigits_ne_nil i.natAbs
+  have hnat := ofDigits_natDigits i.natAbs
   by_cases hi : i < 0
   · have e : seg W (.idx i) ++ rest = '[' :: '-' :: (natDigits i.natAbs ++ ']' :: rest) := by
       simp [seg, intText, hi]
     rw [e]
-    simp only [matchSeg]
-    rw [takeWhile_run isDigitC _ ']' rest (natDigits_all_digit _) isDigitC_rbracket,
-        dropWhile_run isDigitC _ ']' rest (natDigits_all_digit _) isDigitC_rbracket]
-    have hne := natDigits_ne_nil i.natAbs
-    simp [hne, ofDigits_natDigits]
+    simp [matchSeg, skipHash_false, isNegText, dropMinus, hrun, hdrop, hne, hnat]
     omega
   · obtain ⟨c, t, hct, hc⟩ := natDigits_head i.natAbs
     have hcm : c ≠ '-' := by intro h; rw [h] at hc; exact absurd hc (by decide)
-    have e : seg W (.idx i) ++ rest = '[' :: (natDigits i.natAbs ++ ']' :: rest) := by
-      simp [seg, intText, hi]
+    have e : seg W (.idx i) ++ rest = '[' :: c :: (t ++ ']' :: rest) := by
+      simp [seg, intText, hi, hct]
     rw [e]
-    have hrun := takeWhile_run isDigitC _ ']' rest (natDigits_all_digit i.natAbs) isDigitC_rbracket
-    have hdrop := dropWhile_run isDigitC _ ']' rest (natDigits_all_digit i.natAbs) isDigitC_rbracket
-    have hne := natDigits_ne_nil i.natAbs
-    have hnat := ofDigits_natDigits i.natAbs
-    rw [hct] at hrun hdrop hne hnat ⊢
-    simp only [List.cons_append] at hrun hdrop ⊢
-    unfold matchSeg
-    split
-    · rename_i r heq
-      simp only [List.cons.injEq, true_and] at heq
-      subst heq
-      split
-      · rename_i r' heq'; simp at heq'; exact absurd heq'.1 hcm
-      · simp [hrun, hdrop, hnat]; omega
-    · rename_i heq; simp at heq
-    · rename_i h1 h2; exact absurd rfl (h1 _)
+    rw [hct] at hrun hdrop hne hnat
+    simp only [List.cons_append] at hrun hdrop
+    obtain ⟨hd1, hd2⟩ := dropMinus_ne c (t ++ ']' :: rest) hcm
+    simp [matchSeg, skipHash_false, hd1, hd2, hrun, hdrop, hnat]
+    omega
+
+theorem matchSeg_idx (W : Char → Bool) (hash : Bool) (i : Int) (rest : Text) :
+    matchSeg W hash (seg W (.idx i) ++ rest) = some (.idx i, rest) := by
+  have h0 := matchSeg_idx0 W i rest
+  by_cases hi : i < 0
+  · have e : seg W (.idx i) ++ rest = '[' :: '-' :: (natDigits i.natAbs ++ ']' :: rest) := by simp [seg, intText, hi]
+    rw [e] at h0 ⊢
+    rw [matchSeg_nohash W hash '-' _ (by decide)]; exact h0
+  · obtain ⟨c, t, hct, hc⟩ := natDigits_head i.natAbs
+    have hch : c ≠ '#' := by intro h; rw [h] at hc; exact absurd hc (by decide)
+    have e : seg W (.idx i) ++ rest = '[' :: c :: (t ++ ']' :: rest) := by simp [seg, intText, hi, hct]
+    rw [e] at h0 ⊢
+    rw [matchSeg_nohash W hash c _ hch]; exact h0
 
 theorem escQuote_noquote (s : Text) (h : '"' ∉ s) : escQuote s = s := by
   induction s with
@@ -177,8 +203,8 @@ theorem takeWhile_startOk (W : Char → Bool) (s rest : Text) (hs : ∀ c ∈ s,
   | nil => simp [takeWhile_all W s hs, dropWhile_all W s hs]
   | cons c r => exact ⟨takeWhile_run W s c r hs hr, dropWhile_run W s c r hs hr⟩
 
-theorem matchSeg_name (W : Char → Bool) (hW : WordClass W) (s rest : Text) (hs : '"' ∉ s) (hr : startOk W rest) :
-    matchSeg W (seg W (.name s) ++ rest) = some (.name s, rest) := by
+theorem matchSeg_name (W : Char → Bool) (hash : Bool) (hW : WordClass W) (s rest : Text) (hs : '"' ∉ s) (hr : startOk W rest) :
+    matchSeg W hash (seg W (.name s) ++ rest) = some (.name s, rest) := by
   by_cases hid : isIdent W s = true
   · obtain ⟨hne, hall⟩ := isIdent_spec W hW s hid
     obtain ⟨ht, hd⟩ := takeWhile_startOk W s rest hall hr
@@ -198,12 +224,12 @@ def Key.noQuote : Key → Prop
   | .name s => '"' ∉ s
   | .idx _ => True
 
-theorem matchSeg_seg (W : Char → Bool) (hW : WordClass W) (k : Key) (rest : Text)
+theorem matchSeg_seg (W : Char → Bool) (hash : Bool) (hW : WordClass W) (k : Key) (rest : Text)
     (hk : k.noQuote) (hr : startOk W rest) :
-    matchSeg W (seg W k ++ rest) = some (k, rest) := by
+    matchSeg W hash (seg W k ++ rest) = some (k, rest) := by
   cases k with
-  | idx i => exact matchSeg_idx W i rest
-  | name s => exact matchSeg_name W hW s rest hk hr
+  | idx i => exact matchSeg_idx W hash i rest
+  | name s => exact matchSeg_name W hash hW s rest hk hr
 
 theorem seg_head (W : Char → Bool) (hW : WordClass W) (k : Key) : ∃ c t, seg W k = c :: t ∧ W c = false := by
   cases k with
@@ -225,8 +251,8 @@ def Key.pathSafe : Key → Bool
   | .name s => !s.contains '"'
   | .idx _ => true
 
-theorem parseSegs_segs (W : Char → Bool) (hW : WordClass W) (keys : List Key) (hk : ∀ k ∈ keys, k.pathSafe = true) :
-    ∀ f, (segs W keys).length ≤ f → parseSegs W f (segs W keys) = some keys := by
+theorem parseSegs_segs (W : Char → Bool) (hash : Bool) (hW : WordClass W) (keys : List Key) (hk : ∀ k ∈ keys, k.pathSafe = true) :
+    ∀ f, (segs W keys).length ≤ f → parseSegs W hash f (segs W keys) = some keys := by
   induction keys with
   | nil => intro f _; cases f <;> simp [segs, parseSegs]
   | cons k ks ih =>
@@ -237,7 +263,7 @@ theorem parseSegs_segs (W : Char → Bool) (hW : WordClass W) (keys : List Key) 
       cases k with
       | idx i => trivial
       | name s => simpa [Key.pathSafe, Key.noQuote] using this
-    have hm := matchSeg_seg W hW k (segs W ks) hk1 (segs_startOk W hW ks)
+    have hm := matchSeg_seg W hash hW k (segs W ks) hk1 (segs_startOk W hW ks)
     have hlen : (segs W (k :: ks)).length = (t.length + 1) + (segs W ks).length := by
       simp [segs, h]; omega
     cases f with
